@@ -11,10 +11,14 @@ import (
 
 // ------------------------------------------------------------------ C01 / C02 engine level
 
+// sendRec records one send: start is the sender's vector clock just before the call, end
+// the clock just after it returned. Send a happened-before send b iff a.end <= b.start (the
+// whole call of a, including its push, is ordered before b starts by real synchronisation).
 type sendRec struct {
 	id     int
 	sender string
-	vc     vsched.VC
+	start  vsched.VC
+	end    vsched.VC
 }
 
 type engDelivParams struct {
@@ -44,8 +48,11 @@ func engDelivery(variants []engDelivParams) vsched.Instance {
 			b = k.E.Spawn(k.Producer("B", func(k *Kit, c *actor.Context, inc int) {
 				if m, ok := c.Message().(int); ok && m == 500 {
 					for i := 0; i < 2; i++ {
-						sends = append(sends, sendRec{id: 300 + i, sender: pidStr(c.PID()), vc: vsched.Clock()})
+						r := sendRec{id: 300 + i, sender: pidStr(c.PID()), start: vsched.Clock()}
 						c.Send(a, 300+i)
+						r.end = vsched.Clock()
+						vsched.Touch("sends")
+						sends = append(sends, r)
 					}
 				}
 			}), "b", actor.WithID("1"))
@@ -62,13 +69,15 @@ func engDelivery(variants []engDelivParams) vsched.Instance {
 				for i := 0; i < p.PerT; i++ {
 					id := t*100 + i
 					s := snd[(t+i)%3]
-					vsched.Touch("sends")
-					sends = append(sends, sendRec{id: id, sender: pidStr(s), vc: vsched.Clock()})
+					r := sendRec{id: id, sender: pidStr(s), start: vsched.Clock()}
 					if s == nil {
 						k.E.Send(a, id)
 					} else {
 						k.E.SendWithSender(a, id, s)
 					}
+					r.end = vsched.Clock()
+					vsched.Touch("sends")
+					sends = append(sends, r)
 				}
 				if p.Chan && t == 0 {
 					vsched.Send(ch, struct{}{})
@@ -118,7 +127,7 @@ func engDelivery(variants []engDelivParams) vsched.Instance {
 		for i := range sends {
 			for j := range sends {
 				a, b := sends[i], sends[j]
-				if i != j && a.vc.Leq(b.vc) && cnt[a.id] == 1 && cnt[b.id] == 1 && pos[a.id] > pos[b.id] {
+				if i != j && a.end.Leq(b.start) && cnt[a.id] == 1 && cnt[b.id] == 1 && pos[a.id] > pos[b.id] {
 					vs = append(vs, V("order/hb-ordered-sends-reordered", "%s: send %d happened-before send %d but was delivered after it; log: %s", p, a.id, b.id, k.LogString()))
 				}
 			}
@@ -156,8 +165,8 @@ func engLifecycleRace(variants []lifeRaceParams) vsched.Instance {
 	var k *Kit
 	var p lifeRaceParams
 	type sent struct {
-		id int
-		vc vsched.VC
+		id  int
+		end vsched.VC // sender's clock after the send returned
 	}
 	var sends []sent
 	var stopVC vsched.VC
@@ -183,16 +192,16 @@ func engLifecycleRace(variants []lifeRaceParams) vsched.Instance {
 			t := t
 			vsched.Go("sender", func() {
 				for i := 0; i < p.PerT; i++ {
+					k.E.Send(pid, t*100+i)
 					vsched.Touch("sends")
 					sends = append(sends, sent{t*100 + i, vsched.Clock()})
-					k.E.Send(pid, t*100+i)
 				}
 			})
 		}
 		if p.Stopper > 0 {
 			vsched.Go("stopper", func() {
 				vsched.Touch("sends")
-				stopVC = vsched.Clock()
+				stopVC = vsched.Clock() // clock at the start of the stop call
 				stopIssued = true
 				if p.Stopper == 1 {
 					k.E.Poison(pid)
@@ -253,7 +262,7 @@ func engLifecycleRace(variants []lifeRaceParams) vsched.Instance {
 			case c == 0 && d == 0:
 				if p.Stopper == 0 || !stopIssued {
 					vs = append(vs, V("loss/message-neither-delivered-nor-dead-lettered", "%s: message %d vanished; log: %s", p, s.id, k.LogString()))
-				} else if p.Stopper == 1 && s.vc.Leq(stopVC) && stoppedEffective {
+				} else if p.Stopper == 1 && s.end.Leq(stopVC) && stoppedEffective {
 					// sent before a Poison that took effect: must have been handled (or dead-lettered before registration)
 					vs = append(vs, V("poison/message-sent-before-poison-dropped", "%s: message %d was sent before the Poison call but was neither handled nor dead-lettered; log: %s", p, s.id, k.LogString()))
 				}
